@@ -24,7 +24,9 @@ from .sym import (Explorer, Heap, Infeasible, Obj, Path, Unsupported, VExc,
                   VObj, V)
 from .solve import check_unsat, Verdict
 
-PROOF_TIMEOUT_MS = 20000
+import os as _os
+PROOF_TIMEOUT_MS = int(_os.environ.get("PYVC_PROOF_TIMEOUT_MS", "20000"))
+_TRACE = bool(_os.environ.get("PYVC_TRACE"))
 LOOP_SPECS: Dict[Tuple[str, int], Any] = {}     # (function key, loop ordinal)
 
 
@@ -45,6 +47,9 @@ class Obligation:
 
     def merge(self, v: Verdict, detail: str = "") -> None:
         self.n_vcs += 1
+        if _TRACE:
+            print(f"      .. {self.oid} #{self.n_vcs}: {v.status} {v.ms:.0f}ms "
+                  f"{v.solver}", flush=True)
         self.solver_ms += v.ms
         if v.solver and v.solver not in self.solver:
             self.solver += "+" + v.solver
